@@ -15,6 +15,7 @@ import random
 from concurrent.futures import ThreadPoolExecutor
 
 from .. import tlc, tlaval
+from .. import trace as tracemod
 from ..common import CPUS, MachineryError, chunks, import_repo, pmap
 
 # ---- alphabets (generator parameters; the classes come from the code's classify()) ----------
@@ -374,6 +375,51 @@ def _actions_witnessed(found, params):
         raise MachineryError(f"vacuous generator run: no state produced by {missing}")
 
 
+def _canary(ctx):
+    """ the binding is real: observations of two real runs are corrupted one field at a time and every corrupted
+        event has to be rejected by the trace spec (machinery failure otherwise) """
+    gene = _observe({"id": 0, "input": {"kind": "gene", "doms": [
+        ["Condensation_LCL", ""], ["AMP-binding", ""], ["ACP", ""], ["Thioesterase", ""],
+        ["PKS_KS", ""], ["PKS_AT", ""], ["ACP", ""]]}})
+    pair = _observe({"id": 0, "input": {"kind": "pair", "up": [["PKS_KS", "Trans-AT-KS"]],
+                                        "down": [["ACP", ""], ["PKS_KR", ""]], "strands": [[1, 1]]}})
+    events = []
+
+    def corrupt(base, change):
+        event = json.loads(json.dumps(base))
+        event["id"] = len(events) + 1
+        change(event)
+        events.append(event)
+
+    def flip(obj, key):
+        obj[key] = not obj[key]
+
+    if not gene["res"]["exc"] and len(gene["res"]["v"]) == 2 and all(len(m["comps"]) > 2 for m in gene["res"]["v"]):
+        corrupt(gene, lambda ev: flip(ev["res"]["v"][0], "complete"))
+        corrupt(gene, lambda ev: flip(ev["res"]["v"][1], "tat"))
+        corrupt(gene, lambda ev: flip(ev["res"]["v"][1], "tm"))
+        corrupt(gene, lambda ev: ev["res"]["v"][0]["comps"].reverse())
+        corrupt(gene, lambda ev: ev["res"]["v"][1]["comps"].pop())
+        corrupt(gene, lambda ev: ev["res"]["v"][0]["comps"].append(ev["res"]["v"][1]["comps"].pop(0)))
+        corrupt(gene, lambda ev: ev["res"]["v"].append({**ev["res"]["v"][1], "comps": [ev["res"]["v"][1]["comps"].pop()],
+                                                        "complete": False, "tm": False}))
+        corrupt(gene, lambda ev: flip(ev["rl"][0]["v"]["m"], "first"))
+        corrupt(gene, lambda ev: ev["rl"][1].update(exc="ValueError"))
+    if pair["obs"] and not pair["obs"][0]["out"]["exc"] and pair["obs"][0]["out"]["v"]["merged"]:
+        corrupt(pair, lambda ev: ev["obs"][0]["out"]["v"]["qb"].extend(ev["pb"]["v"]))
+        corrupt(pair, lambda ev: ev["obs"][0].update(same=False))
+        corrupt(pair, lambda ev: ev["obs"][0]["out"]["v"]["m"]["comps"].reverse())
+        corrupt(pair, lambda ev: ev["obs"][0]["out"].update(exc="KeyError"))
+    if not events:
+        ctx.notes["canary"] = "skipped: the reference inputs did not produce the expected modules (see failures)"
+        return
+    res = tracemod.validate("NrpsModules_Trace", events, ctx.workdir, shards=1)
+    missed = [event["id"] for event in events if event["id"] not in res.rejects]
+    if missed:
+        raise MachineryError(f"corrupted observations {missed} were accepted by NrpsModules_Trace")
+    ctx.notes["canary"] = {str(ident): sorted(set(clauses)) for ident, clauses in sorted(res.rejects.items())}
+
+
 def _validate_batches(ctx, items, batch_size):
     """ expand + observe + validate in batches so that thorough runs stay within memory """
     samples = []
@@ -443,6 +489,7 @@ def run(ctx):
     del seen
     cases += _random_cases(rng, randoms)
     ctx.evaluations = len(cases)
+    _canary(ctx)
     for sample in _validate_batches(ctx, cases, 150000):
         ctx.sample(sample)
     ctx.exhaustive = True
